@@ -556,7 +556,7 @@ func ethFrame(dst, src []byte, tags [][2]int, payload []byte) []byte {
 			tpid = 0x88a8
 		}
 		f = append(f, be16(tpid)...)
-		f = append(f, be16(t[0]<<13|t[1])...)
+		f = append(f, be16(t[0]<<12|t[1])...) // t[0] = pcp*2+dei
 	}
 	f = append(f, 0x08, 0x00)
 	return append(f, payload...)
@@ -665,6 +665,131 @@ func (r *run) Do(op string) string {
 			ev, _ := cRun("dhcp_fastpath", "dhcp_fastpath_prog", fr)
 			return "c=" + first(ev, "L:circuit_id_subscribers")
 		}
+		return r.doKf(f)
+	}
+	return "badop"
+}
+
+func le(x uint64, n int) []byte {
+	b := make([]byte, n)
+	for i := 0; i < n; i++ {
+		b[i] = byte(x)
+		x >>= 8
+	}
+	return b
+}
+
+// cidOpts is the option area of a DISCOVER whose second option is Option 82 = sub-option 1 (cid) followed by
+// `extra` further bytes inside the option, then END and padding (the Lean driver builds the same bytes)
+func cidOpts(cid []byte, extra int) []byte {
+	o := []byte{53, 1, 1, 82, byte(len(cid) + 2 + extra), 1, byte(len(cid))}
+	o = append(o, cid...)
+	o = append(o, make([]byte, extra)...)
+	o = append(o, 255)
+	for len(o) < 80 {
+		o = append(o, 0)
+	}
+	return o
+}
+
+// doKf: the REAL Go key derivations on one input, next to the key the natively compiled program derives
+//
+//	kf cid <cid hex> <extra>            => go=<MakeCircuitIDKey> c=<key looked up by dhcp_fastpath_prog | none>
+//	kf mac <6B>                          => go=<MACToUint64, 8 bytes LE> c.dhcp=<…> c.antispoof=<…>
+//	kf vlan <s> <c|-> <pcp1> <dei1> <pcp2> <dei2> => go=<key AddVLANSubscriber wrote> c=<key the program looks up>
+//	kf ip <4B>                           => go=<IPToUint32, 4 bytes LE>
+//	kf fnv <hex>                         => go=<HashCircuitID, 8 bytes LE>
+//	kf alg <port> <proto>                => go=<key ConfigureALG wrote> c=<key check_alg_trigger looks up>
+func (r *run) doKf(f []string) string {
+	if len(f) < 3 {
+		return "badop"
+	}
+	switch f[1] {
+	case "cid":
+		if len(f) != 4 {
+			return "badop"
+		}
+		cid := mustHex(f[2])
+		extra, _ := strconv.Atoi(f[3])
+		k := bngebpf.MakeCircuitIDKey(cid)
+		ev, _ := cRun("dhcp_fastpath", "dhcp_fastpath_prog", dhcpFrame([]byte{2, 0, 0, 0, 0, 9}, nil, cidOpts(cid, extra)))
+		return "go=" + hx0(k[:]) + " c=" + first(ev, "L:circuit_id_subscribers")
+	case "mac":
+		mac := mustHex(f[2])
+		if len(mac) != 6 {
+			return "badop"
+		}
+		g := bngebpf.MACToUint64(net.HardwareAddr(mac))
+		evD, _ := cRun("dhcp_fastpath", "dhcp_fastpath_prog", dhcpFrame(mac, nil, append([]byte{53, 1, 1, 255}, make([]byte, 76)...)))
+		evA, _ := cRun("antispoof", "antispoof_ingress", ethFrame([]byte{2, 0, 0, 0, 0, 1}, mac, nil, ipv4([]byte{10, 0, 0, 1}, []byte{10, 0, 0, 2}, 17, l4(17, 1, 2))))
+		return "go=" + hx0(le(g, 8)) + " c.dhcp=" + first(evD, "L:subscriber_pools") + " c.antispoof=" + first(evA, "L:subscriber_bindings")
+	case "vlan":
+		if len(f) != 8 {
+			return "badop"
+		}
+		if err := r.managers(); err != nil {
+			return "err setup"
+		}
+		sv, _ := strconv.Atoi(f[2])
+		cv := 0
+		if f[3] != "-" {
+			cv, _ = strconv.Atoi(f[3])
+		}
+		n := make([]int, 4)
+		for i := range n {
+			n[i], _ = strconv.Atoi(f[4+i])
+		}
+		m, err := r.kmap("vlan_subscriber_pools")
+		if err != nil {
+			return "err map"
+		}
+		clear(m)
+		if err := r.loader.AddVLANSubscriber(uint16(sv), uint16(cv), &bngebpf.PoolAssignment{PoolID: 1}); err != nil {
+			return classify(err)
+		}
+		k, _, ok := one(m)
+		if !ok {
+			return "err readback"
+		}
+		tags := [][2]int{{n[0]*2 + n[1], sv}}
+		if f[3] != "-" {
+			tags = append(tags, [2]int{n[2]*2 + n[3], cv})
+		}
+		ev, _ := cRun("dhcp_fastpath", "dhcp_fastpath_prog", dhcpFrame([]byte{2, 0, 0, 0, 0, 9}, tags, append([]byte{53, 1, 1, 255}, make([]byte, 76)...)))
+		return "go=" + hx0(k) + " c=" + first(ev, "L:vlan_subscriber_pools")
+	case "ip":
+		ip := mustHex(f[2])
+		if len(ip) != 4 {
+			return "badop"
+		}
+		return "go=" + hx0(le(uint64(bngebpf.IPToUint32(net.IP(ip))), 4))
+	case "fnv":
+		return "go=" + hx0(le(bngebpf.HashCircuitID(mustHex(f[2])), 8))
+	case "alg":
+		if len(f) != 4 {
+			return "badop"
+		}
+		if err := r.managers(); err != nil {
+			return "err setup"
+		}
+		port, _ := strconv.Atoi(f[2])
+		proto, _ := strconv.Atoi(f[3])
+		m, err := r.kmap("alg_ports")
+		if err != nil {
+			return "err map"
+		}
+		clear(m)
+		if err := r.natMgr.ConfigureALG(uint16(port), uint8(proto), 1, true); err != nil {
+			return classify(err)
+		}
+		k, _, ok := one(m)
+		if !ok {
+			return "err readback"
+		}
+		fr := ethFrame([]byte{2, 0, 0, 0, 0, 1}, []byte{2, 0, 0, 0, 0, 2}, nil, ipv4([]byte{10, 0, 0, 9}, []byte{192, 0, 2, 1}, proto, l4(proto, 40000, port)))
+		ev, _ := cRun("nat44", "nat44_egress", fr, "nat_config_map=1f000000"+"0004ffff"+"00040000"+"00000000",
+			"subscriber_nat="+strings.Repeat("00", cmaps["subscriber_nat"].ValSize), "nat_stats_map="+strings.Repeat("00", cmaps["nat_stats_map"].ValSize))
+		return "go=" + hx0(k) + " c=" + first(ev, "L:alg_ports")
 	}
 	return "badop"
 }
@@ -874,9 +999,9 @@ func (r *run) xDhcp(a map[string]string) string {
 		}
 		k, _, _ := one(ms["vlan_subscriber_pools"])
 		goVlan = hx0(k)
-		tags = append(tags, [2]int{5, s})
+		tags = append(tags, [2]int{10, s}) // pcp 5, dei 0
 		if a["c"] != "-" {
-			tags = append(tags, [2]int{3, c})
+			tags = append(tags, [2]int{6, c}) // pcp 3, dei 0
 		}
 	}
 	if a["cid"] != "-" {
@@ -1227,6 +1352,9 @@ func randCID(r *rand.Rand) []byte {
 			b[i] = 83
 		}
 	}
+	if r.Intn(4) == 0 { // binary ids end in any byte: port 9/10/13/32 look like white space
+		b[n-1] = []byte{0x20, 0x09, 0x0d, 0x0a, 0x00}[r.Intn(5)]
+	}
 	return b
 }
 
@@ -1338,20 +1466,161 @@ func (comp) Gen(r *rand.Rand, tier string, emit func([]string)) {
 		emit(seq)
 	}
 	// ---- the C circuit-id parser on arbitrary option areas (model of extract_circuit_id_fixed)
-	nk := 100
+	// (quick: 8 000 areas — the circuit-id sweeps of genKeySweeps drive the same parser 20 000 more times; thorough: 100 000)
+	nk, per := 32, 250
 	if tier == "thorough" {
 		nk = 400
 	}
 	for n := 0; n < nk; n++ {
 		seq := []string{"new"}
-		for j := 0; j < 250; j++ {
+		for j := 0; j < per; j++ {
 			seq = append(seq, "kf cidraw "+h(randOpts(r)))
 		}
 		emit(seq)
 	}
+	genKeySweeps(r, tier, emit)
 	if len(skipped) > 0 {
 		fmt.Fprintln(os.Stderr, "layoutbytes: function-local key types exercised through the real methods:", strings.Join(skipped, "; "))
 	}
+}
+
+// genKeySweeps: the key derivations on systematic inputs — every byte value in the first and in the last position
+// of circuit-ids of every length 1..33, ids made of white space / control bytes only, trailing runs of
+// 0x00/0x20/0x09/0x0a/0x0d, random binary ids; every byte value at every position of a MAC; every S-tag and
+// every C-tag with varying priority/DEI bits; every byte value at every position of an IPv4 address and of a port
+func genKeySweeps(r *rand.Rand, tier string, emit func([]string)) {
+	h := hex.EncodeToString
+	var ops []string
+	flush := func() {
+		for len(ops) > 0 {
+			n := len(ops)
+			if n > 500 {
+				n = 500
+			}
+			emit(append([]string{"new"}, ops[:n]...))
+			ops = ops[n:]
+		}
+	}
+	base := func(n int) []byte { // binary filler that never contains the Option-82 code (keeps the second scan loop out)
+		b := make([]byte, n)
+		r.Read(b)
+		for i := range b {
+			if b[i] == 82 {
+				b[i] = 0x80
+			}
+		}
+		return b
+	}
+	cidOp := func(cid []byte) {
+		ops = append(ops, fmt.Sprintf("kf cid %s 0", h(cid)))
+		if len(cid) == 1 { // a 1-byte circuit-id is only recognised when the option carries more than sub-option 1
+			ops = append(ops, fmt.Sprintf("kf cid %s 2", h(cid)))
+		}
+	}
+	for n := 1; n <= 33; n++ {
+		b := base(n)
+		for v := 0; v < 256; v++ {
+			last := append([]byte(nil), b...)
+			last[n-1] = byte(v)
+			cidOp(last)
+			if n > 1 {
+				fst := append([]byte(nil), b...)
+				fst[0] = byte(v)
+				cidOp(fst)
+			}
+		}
+		for _, fill := range [][]byte{{0x20}, {0x0a}, {0x00}, {0x09}, {0x0d}, {0x20, 0x09, 0x0d, 0x0a}, {0xff}, {0x7f}, {0x0b, 0x0c, 0x85, 0xa0}} {
+			c := make([]byte, n)
+			for i := range c {
+				c[i] = fill[i%len(fill)]
+			}
+			cidOp(c)
+		}
+		for _, t := range []byte{0x00, 0x20, 0x09, 0x0a, 0x0d} {
+			for k := 1; k <= 4 && k < n; k++ {
+				c := base(n)
+				for i := n - k; i < n; i++ {
+					c[i] = t
+				}
+				cidOp(c)
+				c2 := append([]byte(nil), c...) // leading run as well
+				for i := 0; i < k; i++ {
+					c2[i] = t
+				}
+				cidOp(c2)
+			}
+		}
+	}
+	nr := 2000
+	if tier == "thorough" {
+		nr = 20000
+	}
+	for i := 0; i < nr; i++ {
+		c := make([]byte, 1+r.Intn(40))
+		r.Read(c)
+		cidOp(c)
+	}
+	cidOp([]byte("eth 0/1/1:100.200"))
+	cidOp([]byte("line-7 \n"))
+	flush()
+	// MAC
+	for pos := 0; pos < 6; pos++ {
+		b := make([]byte, 6)
+		r.Read(b)
+		for v := 0; v < 256; v++ {
+			m := append([]byte(nil), b...)
+			m[pos] = byte(v)
+			ops = append(ops, "kf mac "+h(m))
+		}
+	}
+	for _, m := range [][]byte{{0, 0, 0, 0, 0, 0}, {0xff, 0xff, 0xff, 0xff, 0xff, 0xff}, {0, 0, 0, 0, 0, 1}, {0x80, 0, 0, 0, 0, 0}} {
+		ops = append(ops, "kf mac "+h(m))
+	}
+	flush()
+	// VLAN pair: every S-tag, every C-tag, all PCP/DEI combinations on a few tags
+	for s := 0; s < 4096; s++ {
+		c := "-"
+		if s%2 == 0 {
+			c = strconv.Itoa(r.Intn(4096))
+		}
+		ops = append(ops, fmt.Sprintf("kf vlan %d %s %d %d %d %d", s, c, r.Intn(8), r.Intn(2), r.Intn(8), r.Intn(2)))
+	}
+	for c := 0; c < 4096; c++ {
+		ops = append(ops, fmt.Sprintf("kf vlan %d %d %d %d %d %d", r.Intn(4096), c, r.Intn(8), r.Intn(2), r.Intn(8), r.Intn(2)))
+	}
+	for _, s := range []int{0, 1, 255, 256, 4095} {
+		for pd := 0; pd < 16; pd++ {
+			for qd := 0; qd < 16; qd += 5 {
+				ops = append(ops, fmt.Sprintf("kf vlan %d %d %d %d %d %d", s, 4095-s, pd/2, pd%2, qd/2, qd%2))
+			}
+		}
+	}
+	flush()
+	// IPv4 -> uint32, FNV-1a, ALG key
+	for pos := 0; pos < 4; pos++ {
+		b := randIP(r)
+		for v := 0; v < 256; v++ {
+			x := append([]byte(nil), b...)
+			x[pos] = byte(v)
+			ops = append(ops, "kf ip "+h(x))
+		}
+	}
+	for n := 0; n <= 40; n++ {
+		for k := 0; k < 8; k++ {
+			c := make([]byte, n)
+			r.Read(c)
+			if n == 0 {
+				ops = append(ops, "kf fnv -")
+			} else {
+				ops = append(ops, "kf fnv "+h(c))
+			}
+		}
+	}
+	for v := 0; v < 256; v++ {
+		ops = append(ops, fmt.Sprintf("kf alg %d %d", v<<8|r.Intn(256), []int{6, 17}[v%2]))
+		ops = append(ops, fmt.Sprintf("kf alg %d %d", r.Intn(256)<<8|v, []int{17, 6}[v%2]))
+	}
+	flush()
 }
 
 // randOpts builds an option area that starts with a DISCOVER message type and places (possibly malformed)
